@@ -53,6 +53,9 @@ class Ctx:
         self.states += res["states"]
         self.transitions += res["transitions"]
         self.traces += res["judged"]
+        if res.get("canary"):
+            # binding self-test: a corrupted copy of a real record was rejected at this clause
+            self.extra.setdefault("binding_selftest_rejected_at", []).append(res["canary"])
 
     def log(self, msg):
         print("[%s %6.1fs] %s" % (self.pid, time.time() - self.t0, msg), flush=True)
